@@ -334,9 +334,15 @@ class StroquOOL(Algorithm):
         """
         max_value = -np.inf
         max_node = None
-        for node in self.candidate:
+        candidates = self.candidate
+        if not candidates:
+            # the cross-validation has not started yet: recommend among the evaluated nodes
+            candidates = [node for node in self.chosen if node.get_visited_times() > 0]
+        for node in candidates:
             node.compute_mean_reward()
             if node.get_mean_reward() >= max_value:
                 max_value = node.get_mean_reward()
                 max_node = node
+        if max_node is None:
+            return self.partition.get_root().get_cpoint()
         return max_node.get_cpoint()
